@@ -90,4 +90,12 @@ def harnesses(tier, seed):
              "bound_text": "grids on {0..%d}, reference tuples r<=%d, 5 modes" % (L, rmax)},
             {"name": "values", "body": M.make_value_body(vgrids, ALPHAS, PREFIX),
              "bound_text": "all rule pairs x exponents x spanning values x fixed subsets"},
-            {"name": "scale-up", "body": scale_body, "bound_text": "structured instances of 101 and 1001 samples"}]
+            {"name": "scale-up", "body": scale_body, "bound_text": "structured instances of 101 and 1001 samples"},
+            _long_harness(PREFIX, quick)]
+
+
+def _long_harness(prefix, quick):
+    body, counts = M.make_long_body(prefix, quick)
+    return {"name": "long-and-twin-intervals", "body": body,
+            "bound_text": "samples per interval: every count 2..%d, 2^k+1, around every integer constant of the code (up to %d); "
+                          "twin intervals of equal width and count with different layouts" % (40 if quick else 72, counts[-1])}
